@@ -18,21 +18,21 @@ Proof.
   cbn [app strip_prefix]. rewrite N.eqb_refl. apply IH.
 Qed.
 
-Lemma join_cons : forall sep x l, l <> [] -> join sep (x :: l) = x ++ sep ++ join sep l.
+Lemma join_cons : forall sep x l, l <> [] -> str_join sep (x :: l) = x ++ sep ++ str_join sep l.
 Proof. intros sep x l H. destruct l; [contradiction|reflexivity]. Qed.
 
-Lemma join_nil_sep : forall l, join [] l = concat l.
+Lemma join_nil_sep : forall l, str_join [] l = concat l.
 Proof.
   induction l as [|x l IH]; [reflexivity|].
   destruct l as [|y l].
   - cbn. rewrite app_nil_r. reflexivity.
-  - change (join [] (x :: y :: l)) with (x ++ [] ++ join [] (y :: l)).
+  - change (str_join [] (x :: y :: l)) with (x ++ [] ++ str_join [] (y :: l)).
     rewrite IH. reflexivity.
 Qed.
 
 Lemma split_f_ok : forall fuel sep cur s,
   sep <> [] -> (List.length s <= fuel)%nat ->
-  exists l, split_f fuel sep cur s = Some l /\ l <> [] /\ join sep l = rev cur ++ s.
+  exists l, split_f fuel sep cur s = Some l /\ l <> [] /\ str_join sep l = rev cur ++ s.
 Proof.
   induction fuel as [|f IH]; intros sep cur s Hsep Hlen.
   - destruct s as [|c r]; [|cbn in Hlen; lia].
@@ -55,7 +55,7 @@ Proof.
 Qed.
 
 (* enough fuel: SPLIT never runs out of it *)
-Theorem split_total : forall sep s, exists l, split sep s = Some l.
+Theorem split_total : forall sep s, exists l, str_split sep s = Some l.
 Proof.
   intros sep s. destruct sep as [|x sep].
   - eexists. reflexivity.
@@ -64,7 +64,7 @@ Proof.
 Qed.
 
 Theorem split_join_nonempty : forall sep s, sep <> [] ->
-  exists l, split sep s = Some l /\ join sep l = s.
+  exists l, str_split sep s = Some l /\ str_join sep l = s.
 Proof.
   intros sep s Hsep.
   destruct (split_f_ok (List.length s) sep [] s Hsep (le_n _)) as (l & H1 & _ & H3).
@@ -73,12 +73,12 @@ Proof.
 Qed.
 
 (* the empty separator explodes into UTF-8 sequences; joining with "" restores s *)
-Theorem split_join_empty : forall s, exists l, split [] s = Some l /\ join [] l = s.
+Theorem split_join_empty : forall s, exists l, str_split [] s = Some l /\ str_join [] l = s.
 Proof.
   intros s. exists (utf8_units s). split; [reflexivity|].
   rewrite join_nil_sep. apply utf8_units_concat.
 Qed.
 
 (* separators at the ends and adjacent separators give empty pieces *)
-Lemma split_example : split (bs ",") (bs ",a,,b,") = Some [[]; bs "a"; []; bs "b"; []].
+Lemma split_example : str_split (bs ",") (bs ",a,,b,") = Some [[]; bs "a"; []; bs "b"; []].
 Proof. reflexivity. Qed.
